@@ -60,8 +60,10 @@ class PyFileWriter(AbstractWriter):
                 os.makedirs(self._path)
 
             except OSError:
-                raise error.PySmiWriterError(
-                    'failure creating destination directory %s: %s' % (self._path, sys.exc_info()[1]), writer=self)
+                # somebody else may have made it in the meantime
+                if not os.path.isdir(self._path):
+                    raise error.PySmiWriterError(
+                        'failure creating destination directory %s: %s' % (self._path, sys.exc_info()[1]), writer=self)
 
         if comments:
             data = '#\n' + ''.join(['# %s\n' % x for x in comments]) + '#\n' + data
